@@ -63,14 +63,21 @@ theorem forwarded_by_rate_axis_eq_input (src : Series) (p : Params) :
   simp [outputAxis, outputSeries, byRate, argInterval, argRate, argT0, argUnit, mkSeries, Except.map, bind,
     Except.bind]
 
-/-- the rate path does NOT always return the interval it was computed from: a 0.81327 s interval
-comes back one picosecond short (`to_period` truncates) -/
-theorem rate_roundtrip_counterexample :
-    quantise .s (rateOfInterval .s 813270000000) = 813269999999 := by decide +kernel
+/-- the rate path returns the interval it was computed from on the intervals that used to come back
+one picosecond short while `to_period` truncated (non-vacuity of the `byRate` hypothesis; the general
+round-trip statement for all intervals below 2^49 ps is NOT proved — it is checked per run) -/
+theorem rate_roundtrip_examples :
+    quantise .s (rateOfInterval .s 813270000000) = 813270000000 ∧
+    quantise .ms (rateOfInterval .ms 2300000000) = 2300000000 ∧
+    quantise .us (rateOfInterval .us 1700000) = 1700000 ∧
+    quantise .s (rateOfInterval .ms 2300000000) = 2300000000 ∧
+    quantise .s (rateOfInterval .s (2 * 10 ^ 12)) = 2 * 10 ^ 12 := by
+  refine ⟨?_, ?_, ?_, ?_, ?_⟩ <;> decide +kernel
 
-/-- … while many intervals do survive (non-vacuity of the `byRate` hypothesis) -/
-example : quantise .ms (rateOfInterval .ms 813270000) = 813270000 := by decide +kernel
-example : quantise .s (rateOfInterval .s (2 * 10 ^ 12)) = 2 * 10 ^ 12 := by decide +kernel
+/-- with the truncating `to_period` (before f90f922) a 0.81327 s interval came back as 813269999999 ps -/
+theorem rate_roundtrip_trunc_counterexample :
+    psOfFloat .s (F64.fdiv (F64.ofInt (toPeriodTrunc (rateOfInterval .s 813270000000))) (cf .s)) = 813269999999 := by
+  decide +kernel
 
 /-- a site that does not pass `t0` starts its output at 0, whatever the input's start -/
 theorem dropped_t0_starts_at_zero (sh : Shape) (h : sh.t0 = .absent) (src : Series) (p : Params) (nOut : Nat)
